@@ -18,6 +18,23 @@ CHECKS = {
         design_ref="DESIGN.md 7/C01",
         note="E1-E6 (fake MySQL semantics), TLC, synctest; weak reading: members count by ground truth dead or alive",
         technique="TLA+ model of the switchover (TLC exhaustive) + trace/row validation of real runs on fakes by TLC"),
+    "C03": dict(
+        category="model_checking",
+        text="ZkLock.tla models AcquireLock/ReleaseLock of internal/dcs/zk.go at request granularity with the lock cache, TTL, "
+             "disconnect/expiry/reconnect and event delivery; TLC checks AtMostOneTold and NotAfterLoss exhaustively (and "
+             "exhibits the S12 race in the non-atomic-store variant, which was repaired in the code). REAL zkDCS clients run "
+             "lock histories on the wire-level fake ZooKeeper: every single-injection script (ttl x backoff x prefix x "
+             "acquire/release x injection point incl. the guarded scheduling hook before the cache store x injected action) "
+             "and random multi-client scripts; every answer is logged with the server-side owner at its linearisation point "
+             "and every lock-node delete with the owner of the removed node; TLC (LockTrace.tla) judges AtMostOneTold, "
+             "NotAfterLoss, ReleaseOwnOnly. Application part: the real daemon in manager-handover scenarios (crash, cut, "
+             "session expiry with a competing candidate at call boundaries of the switchover activation); every activation "
+             "with cluster-wide actions, every positive lock answer and every promotion is projected to a row and judged by "
+             "TLC (LockAppRows.tla: ToldOnlyOwner, ActsOnlyConfirmed, SwitchRechecks).",
+        design_ref="DESIGN.md 7/C03",
+        note="E7 (no expiry between applying and answering a request of the same session); 2 genuine findings listed "
+             "(ReleaseLock vs re-created node), 2 repaired (S12 cache store race, FailSwitchover after lost lock)",
+        technique="TLA+ lock model (TLC exhaustive) + TLC trace validation of real zkDCS lock histories and of real daemon activations"),
     "C04": dict(
         category="model_checking",
         text="ActiveNodes.tla models updateActiveNodes at call granularity (both orders, manager death at every label, any "
@@ -211,7 +228,7 @@ def main():
             "enable": "go test -overlay <generated> -tags verif (harness files are injected from /verif/harness by "
                       "overlay; /repo itself carries no verification code unless listed in source_commits)",
             "baseline_off_cmd": "cd /repo && go test -mod=mod -vet=off -count=1 -timeout 25m ./...",
-            "source_commits": [],
+            "source_commits": ["5303d2be68cacc02a7486c9c49550aaa10f52acf"],
             "add_only": True,
         },
         "engines": [{
